@@ -29,9 +29,16 @@ def write_fileset(ctx, prefix, codes, r, layout="variant-major"):
             f.write(f"fam{s} {ids[s]} 0 0 {r.choice([0, 1, 2])} -9\n")
     pos, alleles = [], []
     p = 100
+    # some filesets span several chromosomes (coordinates restart; the last chromosome may end early), some reach
+    # beyond the int16 / int24 range
+    style = r.choice(["sorted", "sorted", "restarts", "wide"])
     with open(prefix + ".bim", "w") as f:
         for v in range(m):
             p += r.choice([0, 1, 7, 1000])
+            if style == "restarts" and r.random() < 0.3:
+                p = r.choice([1, 10, 90, 40000, 3000000, 16777300])
+            elif style == "wide":
+                p += r.choice([0, 30000, 2000000])
             a1, a2 = r.choice(["A", "C", "G", "T", "AT", "GCC"]), r.choice(["A", "C", "G", "T", "TA"])
             f.write(f"{r.choice(['1', '2', 'X'])}\tsnp{v}\t0\t{p}\t{a1}\t{a2}\n")
             pos.append(p)
